@@ -334,4 +334,140 @@ def snapDecode (f : Bytes) : Option Snap :=
     | none => none
     | some recs => some ⟨u / 2 ^ 63 % 2 == 1, u % 2 ^ 32, hash, recs⟩
 
+/-! ## compiled-code shortcuts for the two whole-record decoders
+
+  `decOutsU/decOutsC` keep `rec.Outs` as a list: `rec.Outs[idx] = …` costs `idx` steps, a dense record of 30001
+  outputs 4.5·10^8. The versions below keep it in an `Array` (constant-time store, updated in place), are proved
+  equal and installed for the compiler with `@[csimp]`; every theorem stays about `newRecU/newRecC`. -/
+
+def Res.map {α β : Type} (f : α → β) : Res α → Res β
+  | .ok a => .ok (f a)
+  | .panic => .panic
+  | .hang => .hang
+
+def decOutsUA : Nat → Bytes → Array (Option Out) → Res (Array (Option Out))
+  | 0, rest, acc => if rest.isEmpty then .ok acc else .hang
+  | f + 1, rest, acc =>
+    if rest.isEmpty then .ok acc
+    else
+      let a := vule rest
+      let r1 := rest.drop a.2
+      if acc.size < a.1 + 1 then .panic
+      else
+        let b := vule r1
+        let r2 := r1.drop b.2
+        let c := vlen r2
+        let r3 := r2.drop c.2
+        if c.1 < 0 ∨ shorter r3 c.1.toNat then .panic
+        else decOutsUA f (r3.drop c.1.toNat) (acc.setIfInBounds a.1 (some ⟨b.1, r3.take c.1.toNat⟩))
+
+theorem shorter_toList {α : Type} (a : Array α) (n : Nat) : shorter a.toList n = decide (a.size < n) := by
+  cases h : shorter a.toList n
+  · have := (shorter_false_iff a.toList n).mp h
+    simp only [Array.length_toList] at this
+    simp; omega
+  · have := (shorter_iff a.toList n).mp h
+    simp only [Array.length_toList] at this
+    simp; omega
+
+theorem decOutsUA_eq : ∀ (f : Nat) (rest : Bytes) (acc : Array (Option Out)),
+    (decOutsUA f rest acc).map Array.toList = decOutsU f rest acc.toList := by
+  intro f
+  induction f with
+  | zero =>
+    intro rest acc
+    simp only [decOutsUA, decOutsU]
+    split <;> rfl
+  | succ f ih =>
+    intro rest acc
+    simp only [decOutsUA, decOutsU, shorter_toList, decide_eq_true_eq]
+    split
+    · rfl
+    · split
+      · rfl
+      · split
+        · rfl
+        · rw [ih, Array.toList_setIfInBounds]
+
+def newRecUFast (dat : Bytes) : Res Rec :=
+  match decHeader dat with
+  | none => .panic
+  | some (txid, h, c, rest) =>
+    if c / 2 > maxOuts then .panic
+    else match decOutsUA rest.length rest (Array.replicate (c / 2) none) with
+      | .ok outs => .ok ⟨txid, h % 2 ^ 32, c % 2 == 1, outs.toList⟩
+      | .panic => .panic
+      | .hang => .hang
+
+@[csimp] theorem newRecU_csimp : @newRecU = @newRecUFast := by
+  funext dat
+  unfold newRecU newRecUFast
+  split
+  · rfl
+  · rename_i txid h c rest _
+    split
+    · rfl
+    · have := decOutsUA_eq rest.length rest (Array.replicate (c / 2) none)
+      rw [Array.toList_replicate] at this
+      rw [← this]
+      cases decOutsUA rest.length rest (Array.replicate (c / 2) none) <;> rfl
+
+def decOutsCA (K : KeyOps) : Nat → Bytes → Array (Option Out) → Res (Array (Option Out))
+  | 0, rest, acc => if rest.isEmpty then .ok acc else .hang
+  | f + 1, rest, acc =>
+    if rest.isEmpty then .ok acc
+    else
+      let a := vule rest
+      let r1 := rest.drop a.2
+      if acc.size < a.1 + 1 then .panic
+      else
+        let b := vule r1
+        let r2 := r1.drop b.2
+        match decScrC K r2 with
+        | none => .panic
+        | some (pk, nxt) =>
+          decOutsCA K f nxt (acc.setIfInBounds a.1 (some ⟨AmountCompress.decompress b.1, pk⟩))
+
+theorem decOutsCA_eq (K : KeyOps) : ∀ (f : Nat) (rest : Bytes) (acc : Array (Option Out)),
+    (decOutsCA K f rest acc).map Array.toList = decOutsC K f rest acc.toList := by
+  intro f
+  induction f with
+  | zero =>
+    intro rest acc
+    simp only [decOutsCA, decOutsC]
+    split <;> rfl
+  | succ f ih =>
+    intro rest acc
+    simp only [decOutsCA, decOutsC, shorter_toList, decide_eq_true_eq]
+    split
+    · rfl
+    · split
+      · rfl
+      · split
+        · rfl
+        · rw [ih, Array.toList_setIfInBounds]
+
+def newRecCFast (K : KeyOps) (dat : Bytes) : Res Rec :=
+  match decHeader dat with
+  | none => .panic
+  | some (txid, h, c, rest) =>
+    if c / 2 > maxOuts then .panic
+    else match decOutsCA K rest.length rest (Array.replicate (c / 2) none) with
+      | .ok outs => .ok ⟨txid, h % 2 ^ 32, c % 2 == 1, outs.toList⟩
+      | .panic => .panic
+      | .hang => .hang
+
+@[csimp] theorem newRecC_csimp : @newRecC = @newRecCFast := by
+  funext K dat
+  unfold newRecC newRecCFast
+  split
+  · rfl
+  · rename_i txid h c rest _
+    split
+    · rfl
+    · have := decOutsCA_eq K rest.length rest (Array.replicate (c / 2) none)
+      rw [Array.toList_replicate] at this
+      rw [← this]
+      cases decOutsCA K rest.length rest (Array.replicate (c / 2) none) <;> rfl
+
 end GocoinV.UtxoRec
